@@ -374,6 +374,23 @@ func (m *minimiser) minimise(s []workerlib.ExplicitRun) []workerlib.ExplicitRun 
 	cur := cloneSession(s)
 	changed := true
 	over := func() bool { return time.Since(m.start) > m.limit }
+	// 0. very long schedules (a caller that never returns while library
+	// goroutines keep ticking): every candidate would cost the full trace, so
+	// cut the tail of the last run's trace first - after the recorded prefix the
+	// explicit policy continues fair round-robin
+	if ri := len(cur) - 1; ri >= 0 && cur[ri].Trace != nil && len(cur[ri].Trace.Segs) > 5000 {
+		for _, k := range []int{0, 8, 64, 512, 4096} {
+			if over() {
+				break
+			}
+			c := cloneSession(cur)
+			c[ri].Trace.Segs = c[ri].Trace.Segs[:k:k]
+			if m.ok(c) {
+				cur = c
+				break
+			}
+		}
+	}
 	for round := 0; changed && round < 6 && !over(); round++ {
 		changed = false
 		// 1. drop runs (keep the last one: it is where the violation showed): the
@@ -693,7 +710,7 @@ func explicitPrefix(e *Env, fv *foundViolation) []workerlib.ExplicitRun {
 		} else if to := ses.From + fv.V.RunIndex + 1; to < ses.To {
 			ses.To = to
 		}
-	case "solo":
+	case "solo", "wrap", "overlap":
 		if to := ses.From + fv.V.RunIndex + 1; to < ses.To {
 			ses.To = to
 		}
